@@ -60,6 +60,8 @@ def op_strategies(set_funcs=SET_FUNCS, list_funcs=LIST_FUNCS, symbols=False, loa
             fields.update(a=sl, b=sl, s=st.one_of(st.none(), st.none(), st.sampled_from([1, 2, -1, -2, 3])))
         if f == "setslice":
             fields["perm"] = st.one_of(st.none(), st.integers(0, 8))
+        if f == "remove":
+            fields["xk"] = st.sampled_from([0, 0, 0, 1, 2, 3])
         if f == "pop":
             fields["arg"] = st.booleans()
         ops["list." + f] = progs.op("list", **fields)
@@ -77,6 +79,8 @@ def op_strategies(set_funcs=SET_FUNCS, list_funcs=LIST_FUNCS, symbols=False, loa
             )
         for f in LISTQ_FUNCS:
             fields = {"i": st.integers(0, 3), "f": st.just(f), "ms": cs, "a": small}
+            if f in ("index", "count", "contains"):
+                fields["xk"] = st.sampled_from([0, 0, 0, 1, 2, 3, 5])
             if f == "getslice":
                 fields.update(a=sl, b=sl, s=st.one_of(st.none(), st.none(), st.sampled_from([1, 2, -1, -2, 3])))
             ops["listq." + f] = progs.op("listq", **fields)
